@@ -21,6 +21,49 @@ CHECKS = {
     ),
 }
 
+
+def _mc(tech, text, note, ref):
+    return ("model_checking", tech, text, note, ref)
+
+
+CHECKS.update({
+    "C01": _mc("explicit-state BFS over histories of real model edits; state invariant on the raw GLPK problem",
+               "All histories of the bench alphabet (~115 public edit operations incl. failing ones, copy/pickle, solver "
+               "switch, contexts) up to depth 2 (thorough 3) on a 4-reaction bench model, for glpk and glpk_exact; after every "
+               "step the GLPK problem read with glp_get_* must be exactly the FBA problem derived from the Python objects.",
+               "Bench-sized models and menu values only; swiglpk reads trusted; states merged by canonical hash with a "
+               "non-interference replay audit.", "DESIGN.md §4 C01"),
+    "C02": _mc("explicit-state BFS with a lock-step executable reference model of the documented semantics",
+               "Same exploration as C01; every transition is compared with mc/ref_model.py (documented effect + frame: "
+               "everything else unchanged) and with the cross-reference invariants.",
+               "The reference model is hand-written from the docstrings; doc-silent aspects are skipped (ANY).",
+               "DESIGN.md §4 C02"),
+    "C03": _mc("exhaustive enumeration of context block shapes x operation sequences on real objects",
+               "Every block shape (nesting <=2, thorough <=3) x every sequence of <=2 (thorough 3, deviation-bounded) "
+               "operations of the reversible alphabet incl. failing operations and analysis helpers, normal and exceptional "
+               "exit; snapshot at __enter__ must equal the snapshot after __exit__ (content, cross-references, raw LP).",
+               "Bench-sized model; violations are delta-debugged to the operations that matter before bucketing.",
+               "DESIGN.md §4 C03"),
+    "C12": _mc("exhaustive pair exploration (original, copy) with an aliasing-graph oracle",
+               "Every prefix (incl. an open context) x {Model.copy, deepcopy, pickle} x every one-step and reduced two-step "
+               "edit sequence applied to either side; equality and object-graph disjointness at copy time, untouched side "
+               "unchanged after each step; Reaction/Metabolite copy and arithmetic on every element.",
+               "Bench-sized model; the aliasing walk covers __dict__/list/dict/set/tuple, solver compared by identity and "
+               "content.", "DESIGN.md §4 C12"),
+    "C04": _mc("bounded exhaustive input family vs. exact rational simplex oracle",
+               "All stoichiometric models of family F(3 metabolites, <=3 reactions (thorough 4), coefficient and bounds menus, "
+               "<=1 (2) bound deviations) x objective menu x max/min x {glpk, glpk_exact}; status, optimum, feasibility, "
+               "dual certificate from the shadow prices, reduced-cost identity, accessors, slim_optimize contract, "
+               "Solution snapshot.",
+               "Oracle mc/exactlp.py validated against brute-force vertex enumeration at run start; tolerance 1e-6.",
+               "DESIGN.md §4 C04"),
+    "C05": _mc("bounded exhaustive input family vs. exact LP ranges (loopless: exhaustive sign-pattern enumeration)",
+               "Family F x objectives x FVA option variants with <=1 (thorough 2) options off default (fraction, pfba_factor, "
+               "loopless, reaction_list); every reported minimum/maximum compared with the exact extreme.",
+               "Exact oracle as C04; forced-loop members skipped for loopless; unbounded true ranges only judged when a "
+               "finite value is reported.", "DESIGN.md §4 C05"),
+})
+
 NOT_YET = {}
 
 props = [json.loads(l) for l in open(os.path.join(ROOT, "properties.jsonl"))]
